@@ -325,6 +325,10 @@ def gammas(run):
                 for rep in (True, False):
                     out.append(({"strategy": "page_by", "L": L, "nrow": nrow, "header": hm, "footnote": fn, "source": src,
                                  "inner_repeat": rep}, hs, depth))
+    # a group value that recurs non-adjacently (A, B, A) under the forced-break strategies
+    for nrow in ((4,) if quick else (3, 4, 6, 8)):
+        out.append(({"strategy": "page_by", "L": 1, "nrow": nrow, "header": "none", "new_page": True, "pageby_row": "first_row", "recur": True}, [1], 5))
+        out.append(({"strategy": "subline", "L": 1, "nrow": nrow, "header": "none", "recur": True}, [1], 5))
     # subline_by
     for nrow in ((3, 4, 6) if quick else (3, 4, 5, 6, 8, 12, 30)):
         for hm, fn, src in res_pick(1):
